@@ -85,6 +85,8 @@ def main():
                 t += "; thorough tier adds a coverage-guided libFuzzer/ASan campaign (bin/fuzz) with the same oracle in-target"
             if i in ("C01", "C02", "C03", "C04", "C10"):
                 t += "; follow-up cases repeat an operand of the previous case on the same thread (state kept between calls)"
+            if i not in ("C18", "C19", "C20"):
+                t += "; a quarter of the cases is repeated in a fresh process in which the harness never calls RoundingMode::set_default"
             if i not in ("C18", "C20"):
                 t += "; every run is repeated with the same seed by three further harness builds (overflow-checks/debug-assertions off/off, on/off and off/on; the mixed ones against fpdec with feature packed and default-features = false)"
             checks.append({
